@@ -20,7 +20,7 @@ RULE = ("a case marks a random subset of fields (text, host, integer, boolean, b
         "sensitive position equals the unmasked rendering (non-sensitive AES secrets are compared by decrypting), "
         "mask None changes nothing, documents decode to the masked tree; non-trivial = >= 2 sensitive non-empty "
         "positions at >= 2 depths and >= 1 non-sensitive position; distinct = distinct case content")
-REQUIRED = ("configurations_held_by_untyped_fields", "renders_after_failed_masked_render", "renders_after_schema_growth", "virtual_documents_scanned", "virtual_renderings_checked", "lists_reassigned_from_own_items", "sensitive_lists_checked", "unmasked_reference_checks", "trees_scanned", "documents_scanned", "sensitive_positions_checked", "nonsensitive_positions_checked",
+REQUIRED = ("sensitive_flags_given_as_other_true_values", "fields_declared_twice_second_time_sensitive", "configurations_held_by_untyped_fields", "renders_after_failed_masked_render", "renders_after_schema_growth", "virtual_documents_scanned", "virtual_renderings_checked", "lists_reassigned_from_own_items", "sensitive_lists_checked", "unmasked_reference_checks", "trees_scanned", "documents_scanned", "sensitive_positions_checked", "nonsensitive_positions_checked",
             "mask:none", "mask:empty", "mask:one-char", "mask:multi-char", "sensitive_in_list_items", "sensitive_in_ctype",
             "sensitive_at_depth>=2")
 ASSUMPTIONS = ["the length rule (mask character repeated to the value's length) is asserted for text values only",
@@ -77,7 +77,7 @@ def generate(rng, ctx):
                 rec[1] = sens[rec[0]]
         layout[lst + "_sens"] = sens
     return {"layout": layout, "masks": rng.sample(MASKS, 4), "fmts": rng.sample(trees.FORMATS, rng.choice([1, 2, 3])),
-            "method": rng.choice(["aes", "xor"])}
+            "method": rng.choice(["aes", "xor"]), "truthy_flags": rng.random() < 0.3, "redeclare": rng.random() < 0.3}
 
 
 def abbreviate(case):
@@ -102,14 +102,34 @@ def _field(cc, kind, sens, method):
     return cc.ListField(cc.StringField(), sensitive=sens)
 
 
+STYLE = {"flags": "bool", "redeclare": False, "n": 0}
+
+
 def _fill_schema(cc, schema, scope, method, all_kinds=None):
+    import zlib
+
     for key, (kind, sens, _v) in (all_kinds or scope).items():
-        setattr(schema, key, _field(cc, kind, sens, method))
+        flag = sens
+        h = zlib.crc32(key.encode())
+        if STYLE["flags"] == "truthy":
+            # the flag is given as some other true / false value than the two booleans
+            flag = [True, 1, "yes", 2.5][h % 4] if sens else [False, 0, None, ""][h % 4]
+            STYLE["n"] += 1
+        if STYLE["redeclare"] and h % 3 == 0:
+            # the key is declared twice: first an identical field that is NOT sensitive, then the real one
+            setattr(schema, key, _field(cc, kind, False, method))
+            STYLE["n"] += 1
+        setattr(schema, key, _field(cc, kind, flag, method))
 
 
 def run(case, ctx, res):
     cc = ctx.cc
     lay, method = case["layout"], case["method"]
+    STYLE.update(flags="truthy" if case.get("truthy_flags") else "bool", redeclare=bool(case.get("redeclare")), n=0)
+    if case.get("truthy_flags"):
+        res.count("sensitive_flags_given_as_other_true_values")
+    if case.get("redeclare"):
+        res.count("fields_declared_twice_second_time_sensitive")
     root = cc.Schema()
     _fill_schema(cc, root, lay["root"], method)
     _fill_schema(cc, root.sub, lay["sub"], method)
